@@ -70,6 +70,48 @@ const WORKLOADS: &[Workload] = &[
     Workload { name: "c08", run: "C08", f: crate::wl::c08::run, cases: 12 },
 ];
 
+#[path = "c20fail.rs"]
+mod c20fail;
+
+/// process-wide record of every panic (thread name, `crate/src/file.rs:line`), replaces the silencing hook of `main`
+static PANICS: Mutex<Vec<(String, String)>> = Mutex::new(Vec::new());
+fn install_hook() {
+    std::panic::set_hook(Box::new(|info| {
+        let loc = info.location().map(|l| {
+            let f = l.file();
+            let f = f.rsplit_once("/src/").map(|(a, b)| format!("{}/src/{}", a.rsplit('/').next().unwrap_or(""), b)).unwrap_or(f.to_string());
+            format!("{}:{}", f, l.line())
+        }).unwrap_or_else(|| "?".into());
+        let t = std::thread::current().name().unwrap_or("?").to_string();
+        PANICS.lock().unwrap_or_else(|e| e.into_inner()).push((t, loc));
+    }));
+}
+
+/// The workload under a span made by a FAILING logger of the repo (LegacySeqLogger over an unusable storage): the trace is
+/// created, the logger's writer task gets time to fail, the workload runs inside the span, the writer gets time again.
+fn exec_failing(w: &'static Workload, g: Arc<c20fail::Guarded>, seed: u64, out: String, stats: String) -> Option<String> {
+    use qevent::telemetry::QLog;
+    let h = std::thread::Builder::new().name(format!("c20pure-{}", g.name)).spawn(move || {
+        let o = Opts { prop: w.run.into(), seed, cases: w.cases, tier: "quick".into(), out, stats, only_case: None, extra: vec![] };
+        let rt = tokio::runtime::Builder::new_current_thread().enable_time().build().expect("rt");
+        rt.block_on(async {
+            // (some reused workloads install a silencing hook of their own)
+            install_hook();
+            let span = g.new_trace(qevent::VantagePointType::Client, GroupID::from("abcd".to_string()));
+            tokio::time::sleep(std::time::Duration::from_millis(30)).await;
+            span.in_scope(|| (w.f)(&o));
+            install_hook();
+            tokio::time::sleep(std::time::Duration::from_millis(30)).await;
+        });
+    }).expect("thread");
+    let r = match h.join() {
+        Ok(()) => None,
+        Err(e) => Some(if let Some(s) = e.downcast_ref::<&str>() { s.to_string() } else if let Some(s) = e.downcast_ref::<String>() { s.clone() } else { "?".into() }),
+    };
+    PROGRESS.fetch_add(1, Ordering::SeqCst);
+    r
+}
+
 const CONFIGS: &[&str] = &["control", "noop", "capture", "raw", "filter", "filter-half"];
 
 static PROGRESS: AtomicU64 = AtomicU64::new(0);
@@ -197,6 +239,7 @@ fn check_events(sink: &mut Sink, st: &mut EvStats, w: &Workload, cfg: &str, cap:
 
 pub fn run(o: &Opts) {
     let mut sink = Sink::new_with_stats(&o.out, &o.stats);
+    install_hook();
     backup_watchdog(o.stats.clone());
     let dir = std::env::temp_dir().join(format!("gmq-c20pure-{}", std::process::id()));
     std::fs::create_dir_all(&dir).expect("temp dir");
@@ -269,6 +312,46 @@ pub fn run(o: &Opts) {
                 _ => {}
             }
         }
+        // failing storages / sinks of the repo's own sequential logger (see c20fail.rs)
+        for g in c20fail::failing_configs(&c20fail::scratch("pure")) {
+            let op = format!("pure {} {}", w.name, g.name);
+            sink.pending(&op);
+            let file = p(&format!("{}.txt", g.name));
+            let before = PANICS.lock().unwrap_or_else(|e| e.into_inner()).len();
+            let panic = exec_failing(w, g.clone(), seed, file.clone(), o.stats.clone());
+            restore_watch(&o.stats);
+            let new_panics: Vec<(String, String)> = PANICS.lock().unwrap_or_else(|e| e.into_inner()).iter().skip(before).cloned().collect();
+            // panics of the workload itself (same as without a span) are not the logger's
+            let new_panics: Vec<(String, String)> = new_panics.into_iter().filter(|(_, l)| l.starts_with("qevent/")).collect();
+            let caught = g.caught.lock().unwrap_or_else(|e| e.into_inner()).clone();
+            let got = std::fs::read(&file).unwrap_or_default();
+            let d = first_diff(&base, &got);
+            let same = d.is_none() && panic == panic0;
+            all_same &= same;
+            sink.line(&op, if same { "same" } else { "diff" });
+            sink.branch(&format!("failing:{}:{}", g.name, if new_panics.is_empty() { "no-panic" } else if caught.is_empty() { "panic-contained-in-logger-task" } else { "panic-in-caller" }));
+            if !caught.is_empty() {
+                sink.monitor_fail(
+                    &format!("panic:reaches-caller:{}:{}", caught[0], new_panics.first().map(|(_, l)| c20fail::site_file(l)).unwrap_or_default()),
+                    &format!("logger {}: a panic unwound out of QLog::{} into the thread that creates the trace / emits events: {:?}", g.name, caught[0], new_panics),
+                );
+            } else {
+                for (t, loc) in &new_panics {
+                    sink.monitor_fail(
+                        &format!("logger-task-panic:{}", c20fail::site_file(loc)),
+                        &format!("logger {}: panic at {} (thread {}), contained in the task the logger spawned for itself (the trace is lost, the caller is not affected)", g.name, loc, t),
+                    );
+                }
+            }
+            if !same {
+                let what = match (&d, &panic) {
+                    (Some(d), _) => format!("seed {} cases {}: {}", seed, w.cases, d),
+                    (None, here) => format!("seed {} cases {}: panic without span = {:?}, here = {:?}", seed, w.cases, panic0, here),
+                };
+                sink.monitor_fail(&format!("purity:{}:{}", w.name, g.name), &what);
+            }
+        }
+        let _ = std::fs::remove_dir_all(c20fail::scratch("pure"));
         // the binary without the telemetry feature
         let op = format!("pure {} feature-off", w.name);
         match &off_bin {
